@@ -605,6 +605,31 @@ func runR03_6(c *Ctx, r *R) {
 						return
 					}
 				}
+				// ... also when a helper of the package hands that same field's value back (resetRecvQueue())
+				if hc, ok := v.(*ssa.Call); ok {
+					if h := hc.Call.StaticCallee(); h != nil && h.Blocks != nil && h.Pkg == fn.Pkg {
+						same, nret := true, 0
+						for _, ret := range returnsOf(h) {
+							if len(ret.Results) != 1 {
+								same = false
+								continue
+							}
+							nret++
+							rv := singleStoreValue(unspill(ret.Results[0]))
+							u, ok := rv.(*ssa.UnOp)
+							if !ok || u.Op != token.MUL {
+								same = false
+								continue
+							}
+							if fa2, ok := u.X.(*ssa.FieldAddr); !ok || fieldOf(fa2) != fieldOf(fa) {
+								same = false
+							}
+						}
+						if same && nret > 0 {
+							return
+						}
+					}
+				}
 				p.other = append(p.other, c.pos(st.Pos()))
 			})
 		}
